@@ -35,7 +35,33 @@ def assigned_names(stmts):
     return out
 
 
-def havoc_locals(eng, fr, names):
+def declared_local_type(eng, con, fr, nme):
+    """type given to a local of the function by the `types` attribute of its (loop) contract"""
+    t = (con.types or {}).get(nme) if con is not None else None
+    if t is None:
+        return None
+    return eng.ts.ann_to_type(ast.parse(t, mode='eval').body, fr.module, fr.defcls)
+
+
+def prepare_locals(eng, fr, con, body):
+    """literal lists bound to locals and used inside the loop body become heap lists before the loop is abstracted
+    (a literal list mutated by an arbitrary iteration would otherwise keep its entry value at loop exit)"""
+    used = {n.id for st in body for n in ast.walk(st) if isinstance(n, ast.Name)}
+    for nme in sorted(used):
+        v = fr.vars.get(nme)
+        if isinstance(v, ConstSeq) and v.kind == 'list':
+            if sum(1 for x in fr.vars.values() if x is v) > 1:
+                raise Unsupported(f'literal list {nme!r} used in a loop is bound to several locals')
+            ty = declared_local_type(eng, con, fr, nme)
+            if ty is None and v.items:
+                ty = eng.value_type(v)
+            if ty is None or not isinstance(ty, TList) or ty.t == ANY:
+                raise Unsupported(f'loop uses the literal list {nme!r}: declare its type in types= of the contract so '
+                                  f'that it lives in the heap')
+            fr.vars[nme] = eng.materialize(v, ty)
+
+
+def havoc_locals(eng, fr, names, con=None):
     for nme in sorted(names):
         if nme in fr.vars:
             v = fr.vars[nme]
@@ -48,7 +74,12 @@ def havoc_locals(eng, fr, names):
             if isinstance(v, ConstSeq):
                 raise Unsupported(f'loop modifies the literal list {nme!r}: annotate it so that it lives in the heap')
             if ty == NONE:
-                continue
+                # None at loop entry, assigned by the body: its value at the head of an arbitrary iteration is only
+                # known through the declared type (types= of the contract)
+                ty = declared_local_type(eng, con, fr, nme)
+                if ty is None:
+                    raise Unsupported(f'loop assigns the local {nme!r}, which is None at loop entry: declare its type in '
+                                      f'types= of the contract')
             fr.vars[nme] = eng.fresh_value('lv_' + nme, ty)
 
 
@@ -205,6 +236,7 @@ def symbolic_for(eng, s, fr, it):
     check_literal_mutation(eng, s, fr)
     tag = f'loop{k_ord}/{eng.cur_fn}'
     loop_key = f'loop{k_ord}@{fr.fi.qualname}'
+    prepare_locals(eng, fr, con, s.body)
     entry_heap = eng.heap.snapshot()
     entry_vars = dict(fr.vars)
     loop_old = OldNS(entry_vars, entry_heap)
@@ -230,7 +262,7 @@ def symbolic_for(eng, s, fr, it):
     mods = _loop_mods(eng, con, spec, fr, ghost0)
     eng.heap.havoc(eng.allowed_fn(mods))
     head_heap, mark = eng.heap.snapshot(), _log_mark(eng)
-    havoc_locals(eng, fr, assigned_names(s.body) | assigned_names([s.target]))
+    havoc_locals(eng, fr, assigned_names(s.body) | assigned_names([s.target]), con)
     mark_loop_effects(eng, con, k_ord)
     fx_start = len(eng.effects)
     if is_list:
@@ -354,13 +386,14 @@ def symbolic_while(eng, s, fr):
         raise Unsupported(f'while-loop #{k_ord} at line {s.lineno} needs an invariant (loop{k_ord}_inv): not finished after 12 '
                           f'unrollings')
     tag = f'loop{k_ord}/{eng.cur_fn}'
+    prepare_locals(eng, fr, con, s.body)
     loop_old = OldNS(dict(fr.vars), eng.heap.snapshot())
     ghost = {'loop_old': loop_old}
     eng.run.oblige(f'loop-init:{tag}', 'inv', _clause(eng, con, spec['inv'], fr, ghost), s.lineno)
     mods = _loop_mods(eng, con, spec, fr, ghost)
     eng.heap.havoc(eng.allowed_fn(mods))
     head_heap, mark = eng.heap.snapshot(), _log_mark(eng)
-    havoc_locals(eng, fr, assigned_names(s.body))
+    havoc_locals(eng, fr, assigned_names(s.body), con)
     mark_loop_effects(eng, con, k_ord)
     fx_start = len(eng.effects)
     eng.run.assume(_clause(eng, con, spec['inv'], fr, ghost))
